@@ -150,4 +150,79 @@ PSelectView(spc, idx) ==
   IN  [shape |-> <<QI(-Len(idx))>> \o ShapesFrom([k \in 1..Len(idx) |-> cs[idx[k]]], 1),
        dt |-> DtypeOf(spc), fld |-> FieldOf(spc),
        w |-> IF w.kind = "array" THEN [w EXCEPT !.arr = [k \in 1..Len(idx) |-> w.arr[idx[k]]]] ELSE w]
+
+(* ------------------- derived-space cases: enumeration, expectation, claims -------------- *)
+(* A case is [op, dt, idx, form]:                                                          *)
+(*   op   astype | real_space | complex_space | byaxis | byaxis_in | getitem-int | getitem-list *)
+(*   dt   target dtype (dtype-changing ops), "" otherwise                                   *)
+(*   idx  1-based axis / component numbers selected, in order                               *)
+(*   form the spelling of the index expression (int-or-list | slice | negative-int | ...)   *)
+DCase(op, dt, idx, form) == [op |-> op, dt |-> dt, idx |-> idx, form |-> form]
+Floating(dt) == dt \in {"f32", "f64", "c64", "c128"}
+RealDt(dt) == CASE dt = "c64" -> "f32" [] dt = "c128" -> "f64" [] OTHER -> dt
+CplxDt(dt) == CASE dt = "f32" -> "c64" [] dt = "f64" -> "c128" [] OTHER -> dt
+NDim(spc) == Len(ShapeOf(spc))
+AxisIdxs(nd) == IF nd = 1 THEN {<<1>>}
+                ELSE {<<1>>, <<2>>, <<1, 2>>, <<2, 1>>, <<1, 1>>} \cup (IF nd = 3 THEN {<<3, 1, 2>>, <<1, 2, 3>>} ELSE {})
+DerivedCases(spc) ==
+  LET dt0 == DtypeOf(spc)  nd == NDim(spc)  axop == IF spc.cls = "Discr" THEN "byaxis_in" ELSE "byaxis"
+      n == Len(spc.sub) - 1
+  IN
+       {DCase("astype", t, <<>>, "call") : t \in {"f32", "f64", "c64", "c128", "i64"}}
+  \cup (IF Floating(dt0) THEN {DCase("real_space", RealDt(dt0), <<>>, "property"),
+                               DCase("complex_space", CplxDt(dt0), <<>>, "property")} ELSE {})
+  \cup (IF spc.cls \in {"Tensor", "Discr"}
+          THEN {DCase(axop, "", ix, "int-or-list") : ix \in AxisIdxs(nd)}
+               \cup {DCase(axop, "", <<nd>>, "negative-int")}
+               \cup (IF nd >= 2 THEN {DCase(axop, "", [a \in 1..nd |-> a], "slice"),
+                                      DCase(axop, "", [a \in 1..(nd - 1) |-> a + 1], "slice")} ELSE {})
+          ELSE {})
+  \cup (IF spc.cls = "PSpace"
+          THEN {DCase("getitem-int", "", <<k>>, "int") : k \in 1..n}
+               \cup {DCase("getitem-int", "", <<n>>, "negative-int"),
+                     DCase("getitem-list", "", [k \in 1..n |-> k], "slice"),
+                     DCase("getitem-list", "", [k \in 1..(n - 1) |-> k + 1], "slice-from-1"),
+                     DCase("getitem-list", "", <<1>>, "slice-to-1"),
+                     DCase("getitem-list", "", <<n, 1>>, "list"),
+                     DCase("getitem-list", "", [k \in 1..((n + 1) \div 2) |-> 2 * k - 1], "stepped-slice")}
+          ELSE {})
+
+\* default weighting of a discretised space over the selected axes: the cell volume of the selection
+GridOf(spc) == spc.sub[1].sub[2]
+SideOf(spc, a) == LET v == GridOf(spc).q[a] IN IF Len(v) = 1 THEN QOne ELSE QSub(v[2], v[1])
+RECURSIVE QProd(_)
+QProd(s) == IF s = <<>> THEN QOne ELSE QMul(Head(s), QProd(Tail(s)))
+CellVolOf(spc, idx) == QProd([k \in 1..Len(idx) |-> SideOf(spc, idx[k])])
+AllAxes(spc) == [a \in 1..Len(GridOf(spc).q) |-> a]
+HasDefaultWeighting(spc) ==
+  LET w == WView(WeightingOf(spc)) IN
+  w.kind = "const" /\ w.c = (IF w.exp = Inf THEN QOne ELSE CellVolOf(spc, AllAxes(spc)))
+
+\* is anything claimed about the result at all / about its weighting?
+DerivedClaimed(spc, c) == IF c.op = "byaxis" THEN ByAxisClaimed(spc, c.idx) ELSE TRUE
+DerivedWeightingClaimed(spc, c) ==
+  CASE c.op \in {"astype", "real_space", "complex_space"} -> Floating(c.dt)
+    [] c.op = "byaxis" -> TRUE
+    [] c.op = "byaxis_in" -> HasDefaultWeighting(spc)        \* documented: "except possibly weighting"
+    [] c.op \in {"getitem-int", "getitem-list"} -> TRUE
+\* the view layer A expects
+DerivedView(spc, c) ==
+  CASE c.op \in {"astype", "real_space", "complex_space"} -> AstypeView(spc, c.dt)
+    [] c.op = "byaxis" -> ByAxisView(spc, c.idx)
+    [] c.op = "byaxis_in" ->
+         LET v == ByAxisView(spc, c.idx) IN
+         [v EXCEPT !.w = [v.w EXCEPT !.c = IF v.w.exp = Inf THEN QOne ELSE CellVolOf(spc, c.idx)]]
+    [] c.op = "getitem-int" -> View(Comps(spc)[c.idx[1]])
+    [] c.op = "getitem-list" -> PSelectView(spc, c.idx)
+\* fields in which an observed / modelled view differs from the expected one
+ViewDiff(obs, exp, withw) ==
+       (IF obs.shape # exp.shape THEN {"shape"} ELSE {})
+  \cup (IF obs.dt # exp.dt THEN {"dtype"} ELSE {})
+  \cup (IF obs.fld # exp.fld THEN {"field"} ELSE {})
+  \cup (IF withw /\ obs.w # exp.w THEN {"weighting"} ELSE {})
+\* result [k |-> "ok" | "raise", view] against layer A: the set of failing clause stems
+DerivedDiff(spc, c, res) ==
+  IF ~DerivedClaimed(spc, c) THEN {}
+  ELSE IF res.k = "raise" THEN {"raises"}
+  ELSE ViewDiff(res.view, DerivedView(spc, c), DerivedWeightingClaimed(spc, c))
 =============================================================================
